@@ -60,6 +60,15 @@ CHECKS = {
         design_ref="3 C16",
         technique="symbolic execution of the real Python functions with CrossHair (z3); differential harness (execute_string vs one-by-one); replay on the real stack",
     ),
+    "C15": dict(
+        category="other",
+        text="Bounded symbolic execution (CrossHair/z3) of the real variable substitution on symbolic SQL text around a reference (any "
+        "unicode, length-bounded) for sets of prefix- and case-related variable names, with the regex calls of the real code interpreted "
+        "by a reference matcher driven by the pattern strings the code itself builds; SET/UNSET/use histories over two connections x "
+        "two cursors through the real execute.",
+        design_ref="3 C15",
+        technique="symbolic execution of the real Python functions with CrossHair (z3); regex interpreter over the code's own patterns; replay with the real re module",
+    ),
 }
 
 NOT_YET = "not claimed yet: check not built in this round (see DESIGN.md 7 for the order of work)"
